@@ -298,3 +298,12 @@ def alias(ctx):
     R = 'C10.alias'
     q = ctx.repo.resolve(f'{BAL}.iterative_correction')
     ctx.check(q == f'{BAL}.balance_cooler', R, 'iterative_correction', found=q, expected=f'{BAL}.balance_cooler')
+
+
+_run_core = run
+
+
+def run(ctx):
+    _run_core(ctx)
+    from . import refs_misc
+    refs_misc.run_for(ctx, 'C10')
